@@ -25,15 +25,16 @@ RECURSIVE Go(_, _, _, _)
 Go(h, ms, b, c) ==
   IF ms = <<>> THEN [held |-> h, bad |-> b, cur |-> c]
   ELSE LET m == Head(ms)
-           nb == IF b # "" THEN b
+           nb == IF b = "data_below_start_block" THEN b
                  ELSE IF m.k = "data" /\ m.b.h < StartC THEN "data_below_start_block"
+                 ELSE IF b # "" THEN b
                  ELSE IF ~UndoOK(h, m) THEN "undo_signal_designates_block_client_does_not_hold"
                  ELSE IF ~DataOK(h, m) THEN "two_blocks_at_same_height_without_undo"
                  ELSE "" IN
        Go(ClientStep(h, m), Tail(ms), nb, m.b)
 
 Deliver(st) ==
-  LET r == PStep(ps, st, start)
+  LET r == PStep(ps, st, start, recs > 0)          \* every stream after the first carries a resolved cursor
       g == Go(held, r.msgs, bad, cur)
   IN ps' = r.ps /\ held' = g.held /\ bad' = g.bad /\ cur' = g.cur
 
@@ -87,7 +88,7 @@ Reconnect ==
          feed == [i \in 1..Len(canon) |-> [k |-> "new", b |-> canon[i], j |-> NoBlk]]
          RECURSIVE Run(_, _)
          Run(p, sts) == IF sts = <<>> THEN [ps |-> p, msgs |-> <<>>]
-                        ELSE LET x == PStep(p, Head(sts), r.start)  y == Run(x.ps, Tail(sts)) IN [ps |-> y.ps, msgs |-> x.msgs \o y.msgs]
+                        ELSE LET x == PStep(p, Head(sts), r.start, TRUE)  y == Run(x.ps, Tail(sts)) IN [ps |-> y.ps, msgs |-> x.msgs \o y.msgs]
          run == Run(PInit, feed)
          g == Go(held, r.msgs \o run.msgs, bad, cur)
      IN /\ start' = r.start /\ ps' = run.ps
@@ -99,6 +100,7 @@ Next == (\E br \in Branches : Extend(br)) \/ (\E j \in 1..MaxH : Reorg(j)) \/ Un
 Spec == Init /\ [][Next]_vars
 
 NoBadMessage == bad = ""
+NoDataBelowStart == bad # "data_below_start_block"
 ClientIsCanonical ==
   (conn /\ pend = <<>>) => held = SelectSeq(canon, LAMBDA b : b.h >= StartC)
 \* vacuity guards (expected to be violated: used with expect_violation to show the interesting situations are reached)
